@@ -25,14 +25,8 @@ func rawRequest(addr, method, target string, hdr [][2]string, body string) (resu
 		return result{}, err
 	}
 	defer conn.Close()
-	var sb strings.Builder
-	fmt.Fprintf(&sb, "%s %s HTTP/1.1\r\nHost: dav.test\r\nConnection: close\r\n", method, target)
-	for _, h := range hdr {
-		fmt.Fprintf(&sb, "%s: %s\r\n", h[0], h[1])
-	}
-	fmt.Fprintf(&sb, "Content-Length: %d\r\n\r\n%s", len(body), body)
 	conn.SetDeadline(time.Now().Add(60 * time.Second))
-	if _, err := conn.Write([]byte(sb.String())); err != nil {
+	if _, err := conn.Write([]byte(rawRequestText(method, target, hdr, body))); err != nil {
 		return result{NoReply: true}, nil
 	}
 	raw, _ := ioutil.ReadAll(conn)
@@ -46,6 +40,24 @@ func rawRequest(addr, method, target string, hdr [][2]string, body string) (resu
 	}
 	b, _ := ioutil.ReadAll(resp.Body)
 	return result{Status: resp.StatusCode, Header: resp.Header, Body: b}, nil
+}
+
+// wireSender sends a reported href back, as it was reported, as the request
+// target of a PROPFIND Depth 0 on a connection of its own.
+func wireSender(addr string) sender {
+	return func(raw, p string) (int, []byte, error) {
+		if raw == "" || strings.ContainsAny(raw, " \t\r\n") {
+			return 0, nil, fmt.Errorf("the href cannot stand in a request line as it is")
+		}
+		res, err := rawRequest(addr, "PROPFIND", raw, [][2]string{{"Depth", "0"}}, "")
+		if err != nil {
+			return 0, nil, fmt.Errorf("connection failed")
+		}
+		if res.NoReply {
+			return 0, nil, fmt.Errorf("no reply")
+		}
+		return res.Status, res.Body, nil
+	}
 }
 
 func straceUsable() bool {
@@ -74,18 +86,28 @@ func runWire(c *fw.Ctx) {
 	sb.resetRoot("tree")
 	traced := straceUsable()
 	logPath := filepath.Join(c.WorkDir, "strace.log")
+	// every server process of a run (one per shard) is configured with another
+	// spelling of the same root; those that need the root as the working
+	// directory are left to the in-process channel (the root is removed and
+	// rebuilt between cases)
+	wireSpellings := []string{"", "trailing-slash", "double-slash", "dot-segment", "detour-and-back", "relative", "relative-dot-slash"}
+	spelling := wireSpellings[c.Shard%len(wireSpellings)]
+	spelled, workdir := sb.spell(spelling)
+	if workdir == "" {
+		workdir = "/"
+	}
 	var cmd *exec.Cmd
 	if traced {
 		cmd = exec.Command("strace", "-f", "-y", "-qq", "-s", "4096",
 			"-e", "trace=%file,unlinkat,renameat,renameat2,mkdirat,linkat,symlinkat,truncate,ftruncate,chdir,fchdir",
-			"-o", logPath, bin, sb.root)
+			"-o", logPath, bin, spelled)
 	} else {
-		cmd = exec.Command(bin, sb.root)
+		cmd = exec.Command(bin, spelled)
 		if c.Shard == 0 {
 			c.Note("strace_monitor", "inconclusive: ptrace/strace not usable here; canary and response monitors decide")
 		}
 	}
-	cmd.Dir = "/"
+	cmd.Dir = workdir
 	out, _ := cmd.StdoutPipe()
 	if err := cmd.Start(); err != nil {
 		c.Inconclusive("cannot start davserver: " + err.Error())
@@ -135,6 +157,7 @@ func runWire(c *fw.Ctx) {
 		if !c.Mine(i) {
 			continue
 		}
+		cs.Root = spelling
 		if cur != cs.State {
 			sb.resetRoot(cs.State)
 			cur = cs.State
@@ -144,21 +167,7 @@ func runWire(c *fw.Ctx) {
 		before := sb.outside()
 		n++
 		mark(n)
-		var hdr [][2]string
-		target := cs.Str
-		body := ""
-		if cs.Method == "PUT" {
-			body = "hostile upload"
-		}
-		if cs.Channel == "destination" {
-			target = cs.Source
-			hdr = append(hdr, [2]string{"Destination", cs.Str})
-		} else if cs.Method == "COPY" || cs.Method == "MOVE" {
-			hdr = append(hdr, [2]string{"Destination", "/copied-" + tok})
-		}
-		if cs.Depth != "" {
-			hdr = append(hdr, [2]string{"Depth", cs.Depth})
-		}
+		target, hdr, body := wireForm(cs)
 		c.Journal(cs)
 		res, err := rawRequest(addr, cs.Method, target, hdr, body)
 		c.JournalDone()
@@ -167,7 +176,7 @@ func runWire(c *fw.Ctx) {
 			return
 		}
 		after := sb.outside()
-		sb.check(c, cs, res, before, after, nil)
+		sb.check(c, cs, res, before, after, wireSender(addr))
 		executed = append(executed, done{n, cs})
 		if s, _ := mon.Snapshot(sb.root); s.Shape() != pristine {
 			sb.resetRoot(cs.State)
@@ -193,7 +202,12 @@ func runWire(c *fw.Ctx) {
 		lines := segs[d.idx]
 		c.Observe("strace", "syscalls-inspected", len(lines))
 		checked++
-		for _, v := range inspect(lines, sb, d.cs) {
+		vs, judged, unresolved := inspect(lines, sb, d.cs)
+		c.Observe("strace", "paths judged (root spelled: "+spelling+")", judged)
+		if unresolved > 0 {
+			c.Observe("strace", "relative strings without a directory annotation, not judged (root spelled: "+spelling+")", unresolved)
+		}
+		for _, v := range vs {
 			c.Report(fmt.Sprintf("%s|%s|wire|%s|syscall-outside-root|%s", d.cs.Method, d.cs.Channel, d.cs.Form, v.kind),
 				fmt.Sprintf("system call outside the served directory: %s", v.line),
 				map[string]interface{}{"case": d.cs, "syscall": v.line, "path": v.path})
